@@ -181,7 +181,8 @@ class Check:
                     continue
             except OSError:
                 pass
-            tmp = "%s.tmp%d" % (path, os.getpid())
+            import threading, uuid
+            tmp = "%s.tmp%d-%d-%s" % (path, os.getpid(), threading.get_ident(), uuid.uuid4().hex[:8])
             with open(tmp, "w") as f:
                 f.write(content)
             os.replace(tmp, path)
